@@ -175,6 +175,13 @@ func (rc *realController) Finalize(release *v1beta1.BatchRelease) error {
 	} else if rc.object != nil && !rc.object.Spec.Paused {
 		// already restored by an earlier attempt and rolling natively: wait on the live object, not on the empty one
 		d = rc.object
+	} else if rc.object != nil && rc.object.DeletionTimestamp == nil && !control.IsControlledByBatchRelease(release, rc.object) {
+		// the release ends before it ever claimed the workload: only the webhook's pause is in place, lift it
+		patchData := patch.NewDeploymentPatch()
+		patchData.UpdatePaused(false)
+		if err := rc.client.Patch(context.TODO(), util.GetEmptyObjectWithKey(rc.object), patchData); err != nil {
+			return err
+		}
 	}
 
 	// wait all pods updated and ready
